@@ -125,7 +125,7 @@ def register(reg):
         # crash consistency: before each file-system call - in particular before the atomic rename - the entry under its
         # final name is exactly what it was on entry (absent, or the previous complete entry)
         sites={"open@1": [UNTOUCHED], "json.dump@1": [UNTOUCHED], "os.replace@1": [UNTOUCHED]},
-        modifies=["*FS.exists", "*FS.content", "*O.FileHandle.path"],
+        modifies=["*FS.exists", "*FS.content"],
         props=["C12"])
 
     reg.contract(
@@ -135,7 +135,7 @@ def register(reg):
         raises={"ValueError": "fs_exists(self._CacheManager__cache_refs[key]) and not PARSEABLE(fs_content(self._CacheManager__cache_refs[key]))",
                 "FileNotFoundError": "not fs_exists(self._CacheManager__cache_refs[key])"},
         ensures=["result == LOADS(fs_content(self._CacheManager__cache_refs[key]))"],
-        modifies=["*O.FileHandle.path"],
+        modifies=[],
         props=["C12"])
 
     reg.contract(
